@@ -262,6 +262,13 @@ func WriteBufferToFileIndirect(fp stdio.ReadWriteSeeker, buffer wal.OffsetIndexB
 // In order to improve testability, use this function instead of the static WriteCSM function.
 func (w *Writer) WriteCSM(csm io.ColumnSeriesMap, isVariableLength bool) error {
 	start := time.Now()
+	type pendingWrite struct {
+		times   []time.Time
+		rowData []byte
+		dbDSV   []io.DataShape
+		tbi     *io.TimeBucketInfo
+	}
+	pending := make([]pendingWrite, 0, len(csm))
 	for tbk, cs := range csm {
 		tf, err := tbk.GetTimeFrame()
 		if err != nil {
@@ -351,10 +358,13 @@ func (w *Writer) WriteCSM(csm io.ColumnSeriesMap, isVariableLength bool) error {
 		if err != nil {
 			return fmt.Errorf("convert column series to row series. tbk=%s: %w", tbk, err)
 		}
-		rowData := rs.GetData()
-		err = w.WriteRecords(times, rowData, dbDSV, tbi)
-		if err != nil {
-			return fmt.Errorf("write records to %v: %w", tbi, err)
+		pending = append(pending, pendingWrite{times: times, rowData: rs.GetData(), dbDSV: dbDSV, tbi: tbi})
+	}
+
+	// Every bucket of the request has passed validation: only now queue the records.
+	for _, pw := range pending {
+		if err := w.WriteRecords(pw.times, pw.rowData, pw.dbDSV, pw.tbi); err != nil {
+			return fmt.Errorf("write records to %v: %w", pw.tbi, err)
 		}
 	}
 
